@@ -1093,3 +1093,31 @@ pub fn run() {
   run.assume("signature logic: strings spelling the element name and each consumed requirement; reference evaluation over the graph structure in engines/c04.rs; entries named like an element inside the requirement closure are not used as noise (the implementation lets them override, the property leaves it open)");
   run.finish();
 }
+
+/// A few generated models for the fault-injection corpus of C12.
+pub fn sample_models() -> Vec<String> {
+  let mut out = vec![];
+  // three decisions in a diamond over two inputs and two knowledge models, mixed boxed kinds
+  let mut g = family_graphs(&PLAIN, 3, &[3]).into_iter().last().unwrap();
+  g.decs[0].kind = Kind::Context;
+  g.decs[1].kind = Kind::Table;
+  g.decs[2].kind = Kind::Invocation;
+  g.bkms[1].kind = Kind::Relation;
+  out.push(g.model().to_xml());
+  let mut h = g.clone();
+  h.decs[0].kind = Kind::Function;
+  h.decs[1].kind = Kind::Relation;
+  h.decs[2].kind = Kind::Literal;
+  h.bkms[0].kind = Kind::Invocation;
+  h.bkms[1].kind = Kind::Context;
+  out.push(h.model().to_xml());
+  // a decision service with input, encapsulated and output decisions and a caller
+  let cases = family_services(&PLAIN, false);
+  if let Some((s, _)) = cases.iter().rev().find(|(g, x)| g.svcs[0].outputs.len() == 2 && !g.svcs[0].input_decisions.is_empty() && !g.svcs[0].encapsulated.is_empty() && x.contains("through-knowledge-model")) {
+    out.push(s.model().to_xml());
+  }
+  if let Some((s, _)) = family_services(&COLLIDING, false).into_iter().find(|(g, x)| g.svcs[0].outputs.len() == 1 && !g.svcs[0].encapsulated.is_empty() && x.contains("called-invocation")) {
+    out.push(s.model().to_xml());
+  }
+  out
+}
